@@ -242,7 +242,8 @@ impl Cnt {
             res = format!("panic: {msg}");
         }
         vcore::WAKE_HOOK.with(|h| h.borrow_mut().take());
-        let totals: Vec<usize> = self.counters.iter().map(|c| c.total()).collect();
+        // a panic of total() is an observation (recorded as an impossible count)
+        let totals: Vec<i64> = self.counters.iter().map(|c| catch(|| c.total() as i64).unwrap_or(-1)).collect();
         let inline = inline.borrow().clone();
         json!({"ev": op, "a": a, "w": w, "res": res, "val": val, "inl": inl, "inline": inline,
                "woken": self.wakers.woken_since(&before), "totals": totals})
@@ -347,11 +348,15 @@ impl Lw {
     }
 }
 
-impl Drop for Lw {
-    fn drop(&mut self) {
-        // wakers taken out are dropped while the LocalWaker is still alive
-        self.taken.clear();
-        let _ = self.lw.take();
+impl Lw {
+    /// wakers taken out are dropped while the LocalWaker is still alive, then the stored one (a re-entrant waker calls
+    /// back into the LocalWaker from its destructor; a panic there is an observation)
+    fn teardown(&mut self) -> Value {
+        let r = catch(|| {
+            self.taken.clear();
+            let _ = self.lw.take();
+        });
+        json!({"ev": "teardown", "w": 0, "re": false, "val": 0, "woken": [], "res": match r { Ok(()) => String::new(), Err(m) => format!("panic: {m}") }})
     }
 }
 
@@ -469,6 +474,13 @@ fn main() {
                         mismatches.push(json!({"run": run, "step": k, "expected": exp, "observed": obs}));
                     }
                 }
+                let mut obs = c.teardown();
+                obs["run"] = json!(run);
+                if !bad && obs["res"] != "" {
+                    mismatches.push(json!({"run": run, "step": sch.as_array().unwrap().len(), "expected": {"op": "teardown", "res": ""}, "observed": obs}));
+                }
+                trace.emit(&obs);
+                std::mem::forget(c);
                 runs += 1;
             }
         }
